@@ -32,7 +32,7 @@ def body_of_written(g):
 # ----------------------------------------------------------------------------------------------
 def c07_molecules(tier):
     out = []
-    xyzs = [(0.0, 0.0, 0.0), (1.25, -2.5, 10.0)]
+    xyzs = [(0.0, 0.0, 0.0), (1.25, -2.5, 10.0), (0.0000004, 1.23456789, -7.000000125)]
     for el, masses in (("C", (0, 13, 250)), ("Cl", (0, 37)), ("H", (0, 2, 3)), ("Fe", (0, 56))):
         for chg in (0, -1, 2, 15):
             for rad in (0, 2):
@@ -40,10 +40,12 @@ def c07_molecules(tier):
                     for xyz in xyzs:
                         if tier == "quick" and xyz != xyzs[0] and (chg, rad) not in ((0, 0), (-1, 2)):
                             continue
+                        if tier == "quick" and xyz == xyzs[2] and el != "C":
+                            continue
                         out.append(Mol([Atom(el, chg, rad, mass, xyz)]))
     # 2-atom and 3-atom molecules, every bond subset, types 1,2,4,8
     a2 = [Atom("C", 0, 0, 0, (0.0, 0.0, 0.0)), Atom("O", -1, 0, 18, (1.0, 0.0, 0.0))]
-    for t in (None, 1, 2, 4, 8):
+    for t in (None, 1, 2, 3, 4, 5, 6, 7, 8, 9, 10):
         out.append(Mol([a.__class__(**a.__dict__) for a in a2], [] if t is None else [(0, 1, t)]))
     a3 = [Atom("N", 1, 0, 0, (0.0, 0.0, 0.0)), Atom("H", 0, 0, 2, (1.0, 0.0, 0.0)), Atom("C", 0, 2, 13, (0.0, 1.0, 0.0))]
     pairs = [(0, 1), (0, 2), (1, 2)]
